@@ -19,6 +19,8 @@ type C08Case struct {
 	Override string `json:"override,omitempty"`
 	// Umask: the top-level umask setting (0 = unset). Ghost entries keep their default mode 0644 whatever it is.
 	Umask int `json:"umask,omitempty"`
+	// Debconf: the deb-only debconf members are configured too ("templates", "config", "both"), and all scripts
+	Debconf string `json:"debconf,omitempty"`
 }
 
 // c08Names: destination names with a blank, '#', a backslash, non-ASCII bytes, a glob character and a leading dot.
@@ -160,6 +162,39 @@ func init() {
 					}
 				}
 			}
+			// a ghost that names a source (its content is not shipped), with and without file_info, an empty source
+			for _, src := range []string{"etc/app.conf", "etc/empty", "bin/app"} {
+				for _, info := range []bool{false, true} {
+					e := c08Entry("ghost", "", 1, info)
+					e.Src = src
+					if !yield(C08Case{Part: "ghost-src", List: []model.Entry{e, c08Entry("config", "", 2, false)}}) {
+						return
+					}
+					if !yield(C08Case{Part: "ghost-src", List: []model.Entry{e}}) {
+						return
+					}
+				}
+			}
+			// packages whose files are all empty (installed size 0): configuration files are registered all the same
+			for _, typ := range []string{"config", "config|noreplace", "config|missingok"} {
+				e := c08Entry(typ, "", 1, false)
+				e.Src = "etc/empty"
+				e2 := c08Entry("", "", 2, false)
+				e2.Src = "etc/empty"
+				for _, l := range [][]model.Entry{{e}, {e, e2}, {e, c08Entry("dir", "", 3, false)}, {e, c08Entry("symlink", "", 3, false)}} {
+					if !yield(C08Case{Part: "empty-files", List: l}) {
+						return
+					}
+				}
+			}
+			// every registering type next to the maintainer scripts and the deb-only debconf members
+			for _, dc := range []string{"both", "templates", "config"} {
+				for _, typ := range []string{"config", "config|noreplace", "config|missingok", "ghost", "doc"} {
+					if !yield(C08Case{Part: "debconf", Debconf: dc, List: []model.Entry{c08Entry(typ, "", 1, false), c08Entry("", "", 2, false)}}) {
+						return
+					}
+				}
+			}
 			// whole destination paths: longer than 255 bytes (ordinary components), below a dot-named top-level directory
 			longDir := "/etc"
 			for len(longDir) < 280 {
@@ -270,6 +305,17 @@ func checkC08(env *engine.Env, ci any) engine.Outcome {
 	doc := set.doc(c.List, t.Root)
 	if c.Override != "" {
 		doc["overrides"] = map[string]any{c.Override: map[string]any{"depends": []any{"only-for-" + c.Override}}}
+	}
+	if c.Debconf != "" {
+		for _, f := range Formats {
+			writeScripts(t, f, "normal")
+			for _, sl := range scriptSlots[f] {
+				if f == "deb" && ((sl.Key == "deb.scripts.templates" && c.Debconf == "config") || (sl.Key == "deb.scripts.config" && c.Debconf == "templates")) {
+					continue
+				}
+				setPath(doc, sl.Key, scriptPath(t, "normal", sl.Key))
+			}
+		}
 	}
 	text := doc.YAML()
 	var keys []string
